@@ -57,7 +57,7 @@ PROPS = {
     ),
     'C07': dict(
         comps=['mon_c07', 'addr_stable', 'bsim', 'brefine', 'api_map', 'api_len', 'api_order', ('res', ['iter'])], corr_only=['bsim', 'brefine'], bodies='all',
-        theorems=['C07_unhinge', 'C07_set_head', 'C07_touch', 'C07_realloc', 'C07_traversal', 'C07_b_touch', 'C07_b_remove', 'C07_b_insert_new', 'C07_b_moves', 'C07_public_ops_refine', 'C07_reachable_coherent', 'C07_no_pointer_fault', 'C07_monitor_sound'],
+        theorems=['C07_unhinge', 'C07_set_head', 'C07_touch', 'C07_realloc', 'C07_traversal', 'C07_b_touch', 'C07_b_remove', 'C07_b_insert_new', 'C07_b_moves', 'C07_public_ops_refine', 'C07_reachable_coherent', 'C07_no_pointer_fault', 'C07_no_pointer_fault_with_buckets', 'C07_monitor_sound'],
         assumptions=['Layer B faults on access to unallocated/freed nodes and on reading moved-out or uninitialised payloads; aliasing-model UB is outside the model (DESIGN.md 6, 9.1)',
                      'the monitor ri_check (proved sound: C07_monitor_sound) is evaluated on the pointer graph the dangling-safe hook walker reports after every step; bucket addresses of surviving entries must be stable unless the table was rebuilt', 'bsim: the extracted pointer-level public operation stepB (B/StepB.v, proved to refine stepA: C07_public_ops_refine) is run on the observed pointer graph before each step, with the bucket addresses hashbrown chose, and must produce exactly the links and recorded sizes observed after it; brefine: its result, events and abstract final state must be the ones Layer A computed for that step'],
     ),
